@@ -5,7 +5,7 @@ and double mutations of base grammars, each labelled with the well-formedness
 rules it breaks), rendered to .lalrpop text here; plus a seeded byte-level
 mutator over rendered grammars and the repository's own .lalrpop files.
 Executed in-process (lpdrv: catch_unwind + watchdog) and, for a sample and for
-non-UTF-8 input, through the CLI binary built from /repo.  The oracle is the
+non-UTF-8 input, through the CLI binary built from /repo (harness/crates/lpcli).  The oracle is the
 property's: never a panic / abort / hang; Ok => parser written; Err => no
 parser, a diagnostic, Err / exit status 1.  The recorded pipeline events of every
 run are validated by TLC against spec/Pipeline.tla (TracePipeline)."""
@@ -149,7 +149,7 @@ def byte_mutants(corpus, n, seed):
             elif op == "insert":
                 t = t[:i] + rng.choice(POOL) + t[i:]
             elif op == "duplicate":
-                t = t[:j] + t[i:j] * rng.choice([1, 2, 30]) + t[j:]
+                t = t[:j] + t[i:j] * rng.choice([1, 2, 4]) + t[j:]
             elif op == "truncate":
                 t = t[:i]
             elif op == "unbalance":
@@ -220,7 +220,10 @@ def judge(p, r):
         site, msg = panic_site(r)
         if st == "panic":
             return ("kind=panic site=%s msg=%s" % (site, msg), "LALRPOP panics at %s (%s)" % (site, r.get("message", "")[:200]))
-        return ("kind=%s" % st, "LALRPOP %s" % ("does not terminate within the time budget" if st == "timeout" else "aborts the process"))
+        if st == "timeout":
+            return ("kind=timeout budget_s=%s" % r.get("budget_s", "?"),
+                    "LALRPOP does not end within %s s (run alone)" % r.get("budget_s", "?"))
+        return ("kind=abort", "LALRPOP aborts the process")
     if st == "ok" and not written:
         return ("kind=ok_without_parser", "process_file returned Ok but no parser was written")
     if st == "err" and written:
@@ -268,14 +271,9 @@ def validate_traces(events, wd):
 # CLI
 # --------------------------------------------------------------------------
 def build_cli():
-    env = vlib.cargo_env()
-    with vlib.FileLock("cargo-cli"):
-        p = subprocess.run(["cargo", "build", "--offline", "-q", "--manifest-path", os.path.join(REPO, "lalrpop", "Cargo.toml"),
-                            "--bin", "lalrpop", "--target-dir", os.path.join(TARGET, "cli")],
-                           cwd=HARNESS, env=env, capture_output=True, text=True, timeout=3000)
-    if p.returncode != 0:
-        raise ToolError("building the lalrpop CLI failed:\n" + p.stderr[-3000:])
-    exe = os.path.join(TARGET, "cli", "debug", "lalrpop")
+    """the CLI: /repo/lalrpop/src/main.rs compiled against /repo/lalrpop (harness/crates/lpcli)"""
+    cargo_build_or_die(["lpcli"])
+    exe = os.path.join(vlib.BIN, "lalrpop-cli")
     if not os.path.exists(exe):
         raise ToolError("no CLI binary at " + exe)
     return exe
@@ -342,6 +340,21 @@ def check(tier, seed):
         t0 = time.time()
         res = run_population(pop, wd)
         log("wf: %d grammars through lpdrv in %.0fs" % (len(pop), time.time() - t0))
+        # a run that exceeds the per-job budget is repeated alone with a much larger one: only a
+        # run that still does not end is reported as "does not terminate within N s"
+        budget = 150 if tier == "quick" else 900
+        slow = [p for p in pop if res[p["id"]]["status"] == "timeout"]
+        slow_done = []
+        if slow:
+            jobs = [{"id": p["id"], "file": p["file"], "timeout_s": budget} for p in slow[:16]]
+            again = lp.run_jobs(jobs, wd, procs=len(jobs))
+            for p in slow[:16]:
+                res[p["id"]] = again[p["id"]]
+                res[p["id"]]["budget_s"] = budget
+                if again[p["id"]]["status"] != "timeout":
+                    slow_done.append({"wall_ms": again[p["id"]].get("wall_ms"), "status": again[p["id"]]["status"],
+                                      "text": p["text"][:200]})
+            log("wf: %d slow run(s) repeated with %ds budget, %d ended" % (len(slow), budget, len(slow_done)))
         events = []
         matrix = {}
         accepted_illformed = []
@@ -363,7 +376,7 @@ def check(tier, seed):
                 if p["src"] == "spec":
                     key += " broken=%s" % ("+".join(p["mutant"]["broken"]) or "none")
                 rep.violation(key, "%s on\n%s" % (what, p["text"][:600]),
-                              {"engine": "wf", "text": p["text"], "expect": "no panic"})
+                              {"engine": "wf", "text": p["text"], "expect": "no panic", "timeout_s": rr.get("budget_s", 40)})
             if rr["status"] in ("ok", "err"):
                 events += trace_of(p, rr)
         t0 = time.time()
@@ -410,7 +423,7 @@ def check(tier, seed):
     if bm:
         rep.sample({"byte_mutant_of": bm[0]["of"], "ops": bm[0]["op"], "text": bm[0]["text"][:300]})
     rep.add(tlc_states=r.distinct, tlc_mutants=len(ms), spec_mutants_run=len(used), byte_mutants_run=len(bm),
-            outcome_matrix=matrix, cli_runs=len(cli), cli_exit_codes=cli_codes,
+            outcome_matrix=matrix, slow_but_terminating=slow_done, cli_runs=len(cli), cli_exit_codes=cli_codes,
             pipeline_traces_validated=len([e for e in events if e["ev"] == "reset"]), pipeline_trace_states=tr.distinct,
             ill_formed_by_spec_but_accepted_examples=accepted_illformed)
     rep.assumptions = ["lpdrv's catch_unwind / watchdog report every panic and hang of the in-process run",
@@ -436,7 +449,8 @@ def replay(obj):
             print("REPRODUCED: exit %s %s" % (rc, err[-300:]) if bad else "not reproduced")
             return 1 if bad else 0
         pop = [{"id": "x", "src": "replay", "text": obj["text"]}]
-        res = run_population(pop, wd)
+        res = run_population(pop, wd, timeout_s=obj.get("timeout_s", 40))
+        res["x"]["budget_s"] = obj.get("timeout_s", 40)
         v = judge(pop[0], res["x"])
         if not v and obj.get("expect") == "pipeline":
             _, bad = validate_traces(trace_of(pop[0], res["x"]), wd)
